@@ -149,6 +149,9 @@ NumT == {"i", "d"}
 UnitsAgree(x, y) == ~(x.t = "q" /\ y.t = "q") \/ x.unit = y.unit
 PairsAgree(a, b) == Len(a) # Len(b) \/ \A i \in 1..Len(a) : UnitsAgree(a[i], b[i])
 
+(* the hook does not spell collections of more than eight items or values longer than 256 bytes: such an outcome is not judged *)
+Unspelled(e) == e.ok /\ e.out # <<>> /\ e.outv = <<>>
+
 EqLaw(f, e) ==
   LET kl == f.kids[1]  kr == f.kids[2] IN
   IF Len(f.kids) = 2 /\ AllKidsOk(f) /\ Valued(kl.ov, kl.out) /\ Valued(kr.ov, kr.out) /\ PairsAgree(kl.ov, kr.ov)
@@ -197,6 +200,7 @@ TemporalLaw(f, e) ==
                IF Tm!ClsOf(b.u) = "ucum" \/ Tm!TimeHasNoUnit(a, rank) \/ (a.t = "date" /\ rank \in {"hour", "minute", "second", "ms"}) THEN {}
                ELSE LET R == Tm!Results(a, op, rank, b.th) IN
                     IF \E r \in R : r.oob THEN {}
+                    ELSE IF Unspelled(e) THEN {}
                     ELSE bad(e.ok /\ Len(e.out) = 1 /\ Valued(e.outv, e.out) /\ \E r \in R : Cmp!ItemSame(e.outv[1], r.v))
 
 StrOut(e) == e.ok /\ Len(e.out) = 1 /\ Valued(e.outv, e.out) /\ e.outv[1].t = "s"
@@ -208,7 +212,7 @@ StrLaw(f, e) ==
       bad(c) == IF c THEN {} ELSE {<<"strfn", "C14">>}
       boolIs(b) == e.ok /\ e.cls = (IF b THEN "T" ELSE "F")
       intIs(n) == e.ok /\ e.hi /\ e.iv = n
-  IN IF ~(Len(f.in) = 1 /\ Valued(f.inv, f.in) /\ f.inv[1].t = "s") THEN {}
+  IN IF ~(Len(f.in) = 1 /\ Valued(f.inv, f.in) /\ f.inv[1].t = "s") \/ (Unspelled(e) /\ f.p # "ToChars") THEN {}
      ELSE LET s == f.inv[1].cp
               sArg(i) == OneVal(f.kids[i], {"s"})
               iArg(i) == f.kids[i].ok /\ f.kids[i].hi
@@ -245,7 +249,7 @@ SameVal(got, want) ==
 ConvLaw(f, e) ==
   LET T == ConvTargetOf(f.p)
       bad(c) == IF c THEN {} ELSE {<<"convfn", "C13">>}
-  IN IF T = "" \/ Len(f.kids) # 0 \/ ~(Len(f.in) = 1 /\ Valued(f.inv, f.in)) THEN {}
+  IN IF T = "" \/ Len(f.kids) # 0 \/ ~(Len(f.in) = 1 /\ Valued(f.inv, f.in)) \/ Unspelled(e) THEN {}
      ELSE LET v == f.inv[1] IN
           IF v.t \notin (Cv!SystemTags \ {"q"}) \/ Cv!Amb(T, v) THEN {}
           ELSE IF IsConverts(f.p) THEN bad(e.ok /\ e.cls = (IF Cv!Convertible(T, v) THEN "T" ELSE "F"))
